@@ -775,6 +775,9 @@ def _empty_source_guard(ctx, fr, who):
                     # ... or nothing is requested (taking no position from an empty axis is fine)
                     if a[0] == 'cmp' and a[1] == '<' and a[2] == const(0) and pol is False and 'size' in T.show(a[3]) and 'axes[' not in T.show(a[3]):
                         ok_here = True
+                    # (canonical form of every emptiness test: X.size == 0 / len(X) == 0)
+                    if a[0] == 'cmp' and a[1] == '==' and a[3] == const(0) and pol is True and ('size' in T.show(a[2]) or 'len(' in T.show(a[2])) and 'axes[' not in T.show(a[2]):
+                        ok_here = True
                 guarded = ok_here if guarded is None else (guarded and ok_here)
     guarded = bool(guarded)
     if src is None:
